@@ -7,10 +7,31 @@
     [target] and [np.exp] are oracles (Section variables); for execution the harness supplies
     the tables recorded from the run.  Target values are binary64 values including
     [-inf], [+inf] and [nan]; [np.isinf]/[np.isnan] are [is_infinity]/[is_nan].            *)
-From Coq Require Import List Bool Arith PrimFloat.
+From Coq Require Import List Bool Arith ZArith Uint63 PrimFloat.
 Import ListNotations.
 
 Definition vec := list float.
+
+(** A number as the caller stores it.  [params0] and [sigma_proposals] may arrive as arrays of any
+    real dtype (or, where the entry point takes them, Python sequences): every binary16/32/64
+    value IS a binary64 value ([NF], the harness embeds it exactly); an integer of an int8..int64,
+    uint8..uint32 or bool array, or a Python int, is [NI].  The code never keeps the caller's
+    storage: [samples = np.empty(shape)] is a float64 buffer and [samples[0, :] = params0]
+    converts, [sigma_proposals * randn(..)] promotes to float64.  [to_f64] is that conversion
+    (round to nearest even; exact for |z| <= 2^53; faithful to numpy for |z| < 2^63). *)
+Inductive num :=
+| NF (x : float)
+| NI (z : Z).
+
+Definition of_Z (z : Z) : float :=
+  match z with
+  | Z0 => zero
+  | Zpos _ => of_uint63 (Uint63.of_Z z)
+  | Zneg p => (- of_uint63 (Uint63.of_Z (Zpos p)))%float
+  end.
+
+Definition to_f64 (v : num) : float :=
+  match v with NF x => x | NI z => of_Z z end.
 
 Inductive draw :=
 | DN (z : vec)        (* random_state.randn( *params0.shape) *)
@@ -121,6 +142,12 @@ Section Metropolis.
     end.
 End Metropolis.
 
+(** the entry point as the caller sees it: start and proposal scales in the caller's storage.
+    Nothing but their binary64 values enters the chain; all states are binary64 vectors. *)
+Definition metropolis_entry (target : vec -> float) (expf : float -> float)
+           (sigma_in : list num) (n_samples warmup : nat) (start : list num) (st : list draw) : result :=
+  metropolis target expf (map to_f64 sigma_in) n_samples warmup (map to_f64 start) st.
+
 (** ---- correspondence-check interface ---- *)
 
 (** bit-level equality (distinguishes +0/-0, identifies nan with nan) *)
@@ -166,13 +193,18 @@ Inductive impl_result :=
 Record case := {
   c_n : nat;                          (* n_samples *)
   c_warmup : nat;
-  c_x0 : vec;
-  c_sigma : vec;                      (* broadcast to the shape of params0 *)
+  c_start : list num;                 (* params0 as the caller stored it (flattened) *)
+  c_sigma_in : list num;              (* sigma_proposals as the caller stored it, broadcast to the shape of params0 *)
   c_stream : list draw;               (* every call on random_state, in call order *)
   c_target : list (vec * float);      (* every (argument, value) of target, in call order *)
   c_exp : list (float * float);       (* every (argument, value) of np.exp, in call order *)
+  c_out_f64 : bool;                   (* the returned array's dtype is float64 *)
   c_impl : impl_result
 }.
+
+(** the double-precision values of the start and of the proposal scales *)
+Definition c_x0 (c : case) : vec := map to_f64 (c_start c).
+Definition c_sigma (c : case) : vec := map to_f64 (c_sigma_in c).
 
 Definition res_eqb (m : result) (i : impl_result) : bool :=
   match m, i with
@@ -182,8 +214,8 @@ Definition res_eqb (m : result) (i : impl_result) : bool :=
   end.
 
 Definition model_of (c : case) : result :=
-  metropolis (lookup_t (c_target c)) (lookup_e (c_exp c)) (c_sigma c)
-             (c_n c) (c_warmup c) (c_x0 c) (c_stream c).
+  metropolis_entry (lookup_t (c_target c)) (lookup_e (c_exp c)) (c_sigma_in c)
+                   (c_n c) (c_warmup c) (c_start c) (c_stream c).
 
 (** model = implementation: same outcome, bit for bit; the stream is consumed completely; the
     model evaluates the target at exactly the recorded points, in the recorded order *)
@@ -200,8 +232,10 @@ Definition agree (c : case) : bool :=
      end.
 
 (** the property's own statement on the implementation's output: the returned chain is the
-    Metropolis chain of the stream ([spec]), has [n_samples] states, and - when the start has a
-    finite log-target - every returned state was evaluated and has a finite log-target *)
+    double-precision Metropolis chain of the stream ([spec]) started from the binary64 values of
+    the caller's start - whatever storage the start and the scales came in -, it is a float64
+    array, has [n_samples] states, and - when the start has a finite log-target - every returned
+    state was evaluated and has a finite log-target *)
 Definition ok (c : case) : bool :=
   let tg := lookup_t (c_target c) in
   res_eqb (spec tg (lookup_e (c_exp c)) (c_sigma c) (c_n c) (c_warmup c) (c_x0 c) (c_stream c))
@@ -210,6 +244,7 @@ Definition ok (c : case) : bool :=
      | IBadInit => is_infinity (tg (c_x0 c))
      | IChain l =>
          (length l =? c_n c)
+         && c_out_f64 c
          && negb (is_infinity (tg (c_x0 c)))
          && (negb (is_finite (tg (c_x0 c)))
              || forallb (fun x => mem_t (c_target c) x && is_finite (tg x)) l)
